@@ -138,6 +138,18 @@ def run(ctx, report):
                 else:
                     report.count('ack:rejected-echo-fit-undecided')
     cases = pipecorr.documents(rng, 500 if thorough else 90, thorough)
+    # several groups / sets with a trailer of an EARLIER group or set missing (the later ones are complete)
+    import docgen
+    import walk_gen
+    for k in range(40 if thorough else 8):
+        name = rng.choice(['837.4010.X098.A1.xml', '835.4010.X091.A1.xml', '834.5010.X220.A1.xml', '270.4010.X092.A1.xml'])
+        segs, d = walk_gen.map_document(rng, name, ('~', '*', ':'), n_gs=rng.choice([2, 3]), n_st=rng.choice([1, 2]), p_seg=0.1, p_loop=0.15, max_segs=25)
+        ids = [docgen.seg_id_of(x, d) for x in segs]
+        victims = [i for i, x in enumerate(ids) if x in ('GE', 'SE') and any(y == 'GS' for y in ids[i + 1:])]
+        if not victims:
+            continue
+        i = rng.choice(victims)
+        cases.append(('envmut', 'earlier %s deleted map=%s' % (ids[i], name), docgen.encode(segs[:i] + segs[i + 1:], d, '')))
     pipecorr.run(report, ctx, rng, cases, 2, oracle, force=lambda m: m[0] == 'A')
     logging.disable(logging.NOTSET)
 
